@@ -29,7 +29,6 @@ import (
 	"github.com/tendermint/tendermint/libs/autofile"
 	"github.com/tendermint/tendermint/types"
 
-	"verif/verdict"
 )
 
 const bufioSize = 4096 * 10
@@ -72,7 +71,7 @@ func bigSize(r *rand.Rand) int {
 	}
 }
 
-func runBigCase(c *verdict.Ctx, idx int, base string) {
+func runBigCase(c vctx, idx int, base string) {
 	r := c.Rand("bigrec", idx)
 	cfg := histCfg{Cycles: 1}
 	switch r.Intn(3) {
@@ -90,6 +89,7 @@ func runBigCase(c *verdict.Ctx, idx int, base string) {
 	hs := &hist{c: c, idx: idx, base: hb}
 	hs.rep = &reporter{c: c, hist: idx, cfg: cfg, stream: "bigrec"}
 	m := newModel(cfg.HeadLimit, 0)
+	defer attachSink(m, "bigrec", idx)()
 	if r.Intn(3) == 0 {
 		// the periodic flush of BaseWAL runs concurrently.  It moves buffered
 		// bytes to the file at moments of its own, so a rotation could follow at
@@ -240,7 +240,7 @@ type rawFile struct {
 	Synced int64  `json:"fsynced_prefix"`
 }
 
-func runRawCase(c *verdict.Ctx, idx int, base string) {
+func runRawCase(c vctx, idx int, base string) {
 	r := c.Rand("rawgroup", idx)
 	dir, err := os.MkdirTemp(base, fmt.Sprintf("g%d-", idx))
 	if err != nil {
@@ -421,54 +421,3 @@ func runRawCase(c *verdict.Ctx, idx int, base string) {
 	}
 }
 
-func runBig(c *verdict.Ctx, base string) {
-	c.Assume("power-loss image: of every file only the prefix survives that the autofile.synced point (hit right after fsync returned, rotation included) reported; the bytes behind it are dropped or overwritten with garbage")
-	if rp := c.Replay(); rp != "" {
-		var w struct {
-			Stream string `json:"stream"`
-			Index  int    `json:"index"`
-		}
-		if err := verdict.LoadReplay(rp, &w); err == nil {
-			switch w.Stream {
-			case "bigrec":
-				runBigCase(c, w.Index, base)
-			case "rawgroup":
-				runRawCase(c, w.Index, base)
-			}
-		}
-		return
-	}
-	nb, nr := c.N(150, 3000), c.N(400, 8000)
-	if s := os.Getenv("VERIF_C15_BIG_N"); s != "" { // debugging aid
-		fmt.Sscan(s, &nb)
-		nr = nb
-	}
-	jobs := make(chan func(), 64)
-	var wg sync.WaitGroup
-	for w := 0; w < runtime.NumCPU(); w++ {
-		wg.Add(1)
-		go func() {
-			defer wg.Done()
-			for f := range jobs {
-				f()
-			}
-		}()
-	}
-	for i := 0; i < nb; i++ {
-		i := i
-		jobs <- func() { runBigCase(c, i, base) }
-	}
-	for i := 0; i < nr; i++ {
-		i := i
-		jobs <- func() { runRawCase(c, i, base) }
-	}
-	close(jobs)
-	wg.Wait()
-	if c.Counter("big_synced_writes_returned_nil") == 0 || c.Counter("big_frames_larger_than_bufio_written_with_empty_buffer") == 0 ||
-		c.Counter("raw_payloads_larger_than_bufio_written_with_empty_buffer") == 0 {
-		c.HarnessError("C15a big-record family observed nothing: no synced write of a frame larger than the bufio buffer happened")
-	}
-	if c.Counter("big_synced_writes_with_fsync_hook_hit") == 0 {
-		c.HarnessError("C15a big-record family observed nothing: no synced write was ever seen at the autofile.synced point")
-	}
-}
